@@ -13,7 +13,7 @@ From Coq Require String.
 From PQ Require Import Base.Bytes Base.BitPack Enc.Rle Enc.RleProofs Enc.DeltaBP Enc.DeltaBPProofs.
 From PQ Require Import Dremel.Model File.Pipeline File.PipelineProofs File.SpecDecoder File.SpecAgreement.
 From PQ Require Import Thrift.Compact Thrift.CompactProofs.
-From PQ Require Import File.Layout File.LayoutProofs.
+From PQ Require Import File.Layout File.LayoutProofs File.SpecDecoderProofs.
 Import ListNotations.
 Open Scope N_scope.
 
@@ -256,22 +256,23 @@ Proof. exact layout_file_rows. Qed.
 (** The specification decoder's own page loop ([decode_pages], which also
     decodes the bodies) finds, whenever it succeeds, the pages the header walk
     finds: same offsets, header lengths, sizes, types and value counts. *)
-Theorem C02_layout_sound_decoder_pages : forall fuel rest lf codec dict off ps,
-  decode_pages fuel rest lf codec dict off = Some ps ->
+Theorem C02_layout_sound_decoder_pages : forall ext fuel rest lf codec dict off ps,
+  decode_pages ext fuel rest lf codec dict off = Some ps ->
   exists hs, walk_pages fuel rest off = Some hs /\ Forall2 page_matches ps hs.
 Proof. exact decode_pages_walk. Qed.
 
 (** [verify] itself on a laid out file: whatever it answers, every complaint
     is about page contents ([body_codes]: decompressed length, CRC, encodings
     list, v2 row / null counts and row boundaries, level ranges, column type,
-    rows per column, first_row_index against the decoded levels), never about
+    rows per column, first_row_index against the decoded levels, sorting
+    declarations against the decoded levels), never about
     the layout: num_values, total_compressed_size, total_uncompressed_size,
     data_page_offset, dictionary_page_offset, row_group_total_compressed_size,
     row_group_total_byte_size, file_num_rows, offset_index_missing_locations,
     offset_index_length, page_location_offset, page_location_size,
     offset_index_unreadable cannot be raised. *)
-Theorem C02_layout_sound_verify_complaints : forall fi f codes,
-  file_ok fi = true -> verify (layout_bytes fi) = Some (f, codes) ->
+Theorem C02_layout_sound_verify_complaints : forall ext fi f codes,
+  file_ok fi = true -> verify ext (layout_bytes fi) = Some (f, codes) ->
   forall code, In code codes -> In code body_codes.
 Proof. exact layout_verify_only_body_codes. Qed.
 
@@ -282,8 +283,8 @@ Proof. exact layout_verify_only_body_codes. Qed.
     on the library's files, and for a specification-following page writer by
     C02_page_layer / C02_levels_decode / the C04 encodings; the composition
     "bodies written by the page layer are accepted" is not proved here. *)
-Theorem C02_layout_sound_verify_partial : forall fi,
-  file_ok fi = true -> bodies_accepted fi -> exists f, verify (layout_bytes fi) = Some (f, []).
+Theorem C02_layout_sound_verify_partial : forall ext fi,
+  file_ok fi = true -> bodies_accepted ext fi -> exists f, verify ext (layout_bytes fi) = Some (f, []).
 Proof. exact layout_verify_modulo_bodies. Qed.
 
 (** The full statement: contents described page by page, each chunk decoded in
@@ -291,23 +292,23 @@ Proof. exact layout_verify_modulo_bodies. Qed.
 Definition page_rows (lf : leaf) (p : page) : nat :=
   if (l_maxr lf =? 0)%nat then p_nvalues p else count_eq 0 (p_rep p).
 
-Definition chunk_contents_ok (lf : leaf) (md : tval) (nrows : N) (c : chunk_in) : Prop :=
+Definition chunk_contents_ok (ext : ext_fn) (lf : leaf) (md : tval) (nrows : N) (c : chunk_in) : Prop :=
   exists ps,
-    decode_pages (S (length (chunk_bytes c))) (chunk_bytes c) lf (zdef (get_int 4 md) 0) [] 0 = Some ps /\
+    decode_pages ext (S (length (chunk_bytes c))) (chunk_bytes c) lf (zdef (get_int 4 md) 0) [] 0 = Some ps /\
     let ch := {| c_leaf := lf; c_meta := md; c_chunk := TStruct []; c_start := 0; c_pages := ps |} in
     (forall code, In code (check_chunk ch) -> ~ In code body_codes) /\
     map (page_rows lf) (data_pages ch) = map (fun p => N.to_nat (pg_nrows p)) (ck_pages c) /\
     chunk_rows ch = N.to_nat nrows.
 
-Definition contents_ok (fi : file_in) : Prop :=
+Definition contents_ok (ext : ext_fn) (fi : file_in) : Prop :=
   exists schema ls, fi_schema fi = TList T_STRUCT schema /\ leaves_of schema = Some ls /\
     forall i g, nth_error (fi_groups fi) i = Some g ->
       length (gi_chunks g) = length ls /\
       forall j c lf, nth_error (gi_chunks g) j = Some c -> nth_error ls j = Some lf ->
-        chunk_contents_ok lf (the_meta_tree fi i g j c) (group_num_rows g) c.
+        chunk_contents_ok ext lf (the_meta_tree fi i g j c) (group_num_rows g) c.
 
 Definition C02_layout_full_statement : Prop :=
-  forall fi, file_ok fi = true -> contents_ok fi -> exists f, verify (layout_bytes fi) = Some (f, []).
+  forall ext fi, file_ok fi = true -> contents_ok ext fi -> exists f, verify ext (layout_bytes fi) = Some (f, []).
 
 Print Assumptions C02_layout_ids_agree_with_go.
 Print Assumptions C02_layout_sound_footer.
@@ -360,14 +361,14 @@ Example C02_ex_layout_ok : file_ok ex_layout = true.
 Proof. vm_compute. reflexivity. Qed.
 
 Example C02_ex_layout_verify :
-  (match verify (layout_bytes ex_layout) with Some (f, codes) => Some (length (f_groups f), codes) | None => None end)
+  (match verify no_ext (layout_bytes ex_layout) with Some (f, codes) => Some (length (f_groups f), codes) | None => None end)
   = Some (2%nat, []).
 Proof. vm_compute. reflexivity. Qed.
 
 (* so the hypothesis of C02_layout_sound_verify_partial is satisfiable *)
-Example C02_ex_layout_bodies_accepted : bodies_accepted ex_layout.
+Example C02_ex_layout_bodies_accepted : bodies_accepted no_ext ex_layout.
 Proof.
-  destruct (verify (layout_bytes ex_layout)) as [[f codes]|] eqn:E.
+  destruct (verify no_ext (layout_bytes ex_layout)) as [[f codes]|] eqn:E.
   - assert (Hc : codes = []).
     { pose proof C02_ex_layout_verify as H. rewrite E in H. now inversion H. }
     exists f, codes. split; [exact E|]. subst codes. intros c [].
@@ -375,4 +376,41 @@ Proof.
 Qed.
 
 Example C02_ex_layout_size : length (layout_bytes ex_layout) = 493%nat.
+Proof. vm_compute. reflexivity. Qed.
+
+(** * Codecs and sorting declarations
+
+    The decoder [verify ext] is parametrised by a decompressor [ext] for the codecs it does
+    not implement itself (GZIP, BROTLI, ZSTD, LZ4_RAW; the run instantiates it with the
+    reference implementations of those codecs, which accept complete well-formed streams only
+    - a section of zero bytes is a stream of none of them).  Every theorem above that mentions
+    [ext] holds for every [ext]; and [ext] is never consulted for UNCOMPRESSED and SNAPPY
+    sections: *)
+Theorem C02_ext_only_for_foreign_codecs : forall (e1 e2 : ext_fn) codec b,
+  (codec = 0 \/ codec = 1)%Z -> decompress e1 codec b = decompress e2 codec b.
+Proof. exact decompress_ext_scope. Qed.
+
+(** The complaint sorting_nulls_placement is raised exactly when the definition levels of
+    the first sorting column do not split into nulls followed by non-nulls (nulls_first) /
+    non-nulls followed by nulls (otherwise). *)
+Theorem C02_sorting_nulls_placement : forall nf maxd defs,
+  nulls_placed nf maxd defs = true <->
+  exists a b, defs = a ++ b /\
+    forallb (fun d => if nf then d <? maxd else negb (d <? maxd)) a = true /\
+    forallb (fun d => if nf then negb (d <? maxd) else d <? maxd) b = true.
+Proof. exact nulls_placed_spec. Qed.
+
+Print Assumptions C02_ext_only_for_foreign_codecs.
+Print Assumptions C02_sorting_nulls_placement.
+
+(* non-vacuity: both answers occur; a decompressor for codec 6 is used for codec 6 only *)
+Example C02_ex_nulls_placed :
+  (nulls_placed true 1 [0; 0; 1; 1], nulls_placed false 1 [0; 0; 1; 1],
+   nulls_placed false 2 [2; 2; 1; 0], nulls_placed true 1 [0; 1; 0]) = (true, false, true, false).
+Proof. vm_compute. reflexivity. Qed.
+
+Example C02_ex_ext :
+  let e : ext_fn := fun codec b => if (codec =? 6)%Z then Some (rev b) else None in
+  (decompress e 6 [1; 2], decompress e 2 [1; 2], decompress e 0 [1; 2], decompress no_ext 6 [1; 2])
+  = (Some [2; 1], None, Some [1; 2], None).
 Proof. vm_compute. reflexivity. Qed.
